@@ -78,8 +78,10 @@ type ctx = {
   mutable crows : float cRow list;          (* constraint rows, in order *)
   mutable srows : float sRow list;
   mutable act : bool list;            (* actuation map *)
+  mutable luamode : bool;             (* parents are resolved through body names, as the Lua loader does *)
+  mutable opnames : int list;         (* reversed: name number of the k-th add *)
 }
-let new_ctx () = { m = model0 fo; ids = []; used_names = []; sp = spec0; srefs = []; crows = []; srows = []; act = [] }
+let new_ctx () = { m = model0 fo; ids = []; used_names = []; sp = spec0; srefs = []; crows = []; srows = []; act = []; luamode = false; opnames = [] }
 let nth_rev l k = List.nth (List.rev l) k
 let ref_id c s =
   if s = "base" then 0 else if s = "prev" then int_of_n c.m.prev_id
@@ -660,7 +662,17 @@ let run_line c (l : string) seq =
         if nm >= 1 && not (List.mem nm c.used_names) then c.used_names <- nm :: c.used_names;
         let b = { bmass = mass; bcom = com; binertia = inr; bvirtual = virt <> 0 } in
         let x = { stE = e; str = r } in
-        let parent = ref_id c pref in
+        (* as the Lua loader: the parent is looked up by NAME in the name map of this model; unknown names give ROOT *)
+        let parent =
+          if c.luamode then begin
+            if pref = "base" then 0
+            else if pref = "dangling" then 0
+            else (match int_of_string_opt pref with
+                | Some k when k >= 0 && k < List.length c.opnames ->
+                  let pn = nth_rev c.opnames k in int_of_n (lua_parent m (n_of_int pn))
+                | _ -> 0) end
+          else ref_id c pref in
+        c.opnames <- nm :: c.opnames;
         let (m', res) = add_body fo m (n_of_int parent) x js b (n_of_int nm) in
         c.m <- m';
         (match res with
@@ -668,7 +680,7 @@ let run_line c (l : string) seq =
          | RRejected -> line "o" seq "add" (fun () -> os "rejected"); c.ids <- (-1) :: c.ids);
         (* specification side *)
         (try
-           let pn = ref_node c pref in
+           let pn = ref_node c (if pref = "dangling" then "base" else pref) in
            let (sp', r) = spec_add fo c.sp pn x js b (n_of_int nm) in
            c.sp <- sp';
            (match r with
@@ -947,6 +959,8 @@ let run_line c (l : string) seq =
         List.iter (fun ax ->
           c.crows <- c.crows @ [RLoop (n_of_int idp, n_of_int ids, xp, xs, ax, baum, ts)];
           (try c.srows <- c.srows @ [SLoop (ref_node c rp, ref_node c rsn, xp, xs, ax)] with Not_found -> ())) axs
+      | "luamode" -> c.luamode <- true
+      | "luaload" | "luadecoy" -> ()
       | "bez" | "curve" | "cval" | "cder" | "cinv" | "cshift" | "cscale" | "tmuscle" -> curve_cmd cmd t seq
       | "ik1" ->
         let nn = nat_of_int n_qd in
